@@ -13,7 +13,8 @@ use nitrogql_printer::verif_hooks::{
     generate_selection_tree_type, get_type_for_selection_set, GenerateSelectionTreeTypeContext, QueryTypePrinterContext,
     SelectionTree, SelectionTreeField,
 };
-use nitrogql_printer::{print_types_for_operation_document, OperationTypePrinterOptions};
+use nitrogql_config_file::{ScalarTypeConfig, SeparateScalarTypeConfig};
+use nitrogql_printer::{print_types_for_operation_document, OperationTypePrinterOptions, SchemaTypePrinter, SchemaTypePrinterOptions};
 use serde_json::{json, Value as J};
 use std::borrow::Cow;
 use std::collections::{BTreeMap, BTreeSet, HashMap, HashSet};
@@ -161,9 +162,13 @@ fn scope_fields<'a>(sv: &SV, fs: &Frags<'a>, o: &str, sels: &[&'a Selection<'a>]
     out
 }
 fn merge_safe<'a>(sv: &SV, fs: &Frags<'a>, t: &str, sels: &[&'a Selection<'a>], depth: usize) -> bool {
+    merge_safe_segs(sv, fs, t, &[sels.to_vec()], depth)
+}
+/// the scope is a list of segments (the sub-selections of same-key fields, in the order their trees are merged)
+fn merge_safe_segs<'a>(sv: &SV, fs: &Frags<'a>, t: &str, segs: &[Vec<&'a Selection<'a>>], depth: usize) -> bool {
     if depth > 64 { return false; }
     sv.possible(t).iter().all(|o| {
-        let es = scope_fields(sv, fs, o, sels, 0);
+        let es: Vec<_> = segs.iter().flat_map(|sg| scope_fields(sv, fs, o, sg, 0)).collect();
         let mut keys: Vec<&str> = vec![];
         for e in &es { if !keys.contains(&e.0.as_str()) { keys.push(&e.0); } }
         keys.iter().all(|k| {
@@ -172,7 +177,7 @@ fn merge_safe<'a>(sv: &SV, fs: &Frags<'a>, t: &str, sels: &[&'a Selection<'a>], 
             if g.is_empty() { return true; }
             if !g[1..].iter().all(|e| !has_local_vars(fs, &e.2, 0)) { return false; }
             match sv.field_named_type(o, &group[0].1) {
-                Some(named) => { let merged: Vec<&Selection> = g.iter().flat_map(|e| e.2.iter().copied()).collect(); merge_safe(sv, fs, &named, &merged, depth + 1) }
+                Some(named) => { let sub: Vec<Vec<&Selection>> = g.iter().map(|e| e.2.clone()).collect(); merge_safe_segs(sv, fs, &named, &sub, depth + 1) }
                 None => true,
             }
         })
@@ -240,17 +245,25 @@ fn flat_scope<'a>(sv: &SV, fs: &Frags<'a>, o: &str, sels: &[&'a Selection<'a>], 
     Some(out)
 }
 fn nodup(xs: &[&str]) -> bool { xs.iter().enumerate().all(|(i, x)| !xs[i + 1..].contains(x)) }
-fn merge_free<'a>(sv: &SV, fs: &Frags<'a>, t: &str, sels: &[&'a Selection<'a>], depth: usize) -> bool {
+fn merge_free<'a>(sv: &SV, fs: &Frags<'a>, t: &str, sels: &[&'a Selection<'a>], depth: usize) -> bool { merge_free_g(sv, fs, t, sels, depth, false) }
+/// ld = true: C01/Guards.v merge_free_ld (keys_ok: a repeated key only among leaf selections of one field, one aliasing)
+fn merge_free_g<'a>(sv: &SV, fs: &Frags<'a>, t: &str, sels: &[&'a Selection<'a>], depth: usize, ld: bool) -> bool {
     if depth > 64 { return false; }
     match spread_names(fs, sels, 0) { Some(ns) if nodup(&ns) => {} _ => return false }
     sv.possible(t).iter().all(|o| {
         let Some(l) = flat_scope(sv, fs, o, sels, 0) else { return false };
         let keys: Vec<&str> = l.iter().map(|f| f.alias.map(|a| a.name).unwrap_or(f.name.name)).collect();
-        nodup(&keys) && l.iter().all(|f| {
+        let keys_ok = if !ld { nodup(&keys) } else {
+            l.iter().enumerate().all(|(i, f)| {
+                let same: Vec<_> = l.iter().enumerate().filter(|(j, _)| keys[*j] == keys[i]).map(|(_, g)| g).collect();
+                same.len() == 1 || same.iter().all(|g| g.selection_set.is_none() && g.name.name == f.name.name && g.alias.is_some() == f.alias.is_some())
+            })
+        };
+        keys_ok && l.iter().all(|f| {
             let alias_ok = f.alias.map_or(true, |a| a.name != "__typename" && f.name.name != "__typename");
             alias_ok && match &f.selection_set {
                 Some(ss) => match sv.field_named_type(o, f.name.name) {
-                    Some(named) => merge_free(sv, fs, &named, &ss.selections.iter().collect::<Vec<_>>(), depth + 1),
+                    Some(named) => merge_free_g(sv, fs, &named, &ss.selections.iter().collect::<Vec<_>>(), depth + 1, ld),
                     None => true,
                 },
                 None => true,
@@ -321,6 +334,7 @@ fn sel_stats(sels: &[Selection], st: &mut BTreeMap<&'static str, usize>, keys_se
 
 struct Out {
     schemas: Vec<String>,
+    schema_texts: Vec<Option<String>>,   // the schema declaration the implementation prints for schemas[i]
     docs: Vec<String>,
     terms: Vec<(usize, usize, String)>, // (schema index, doc index, term with {S} {D})
     descr: Vec<J>,
@@ -442,7 +456,8 @@ fn run_doc(out: &mut Out, si: usize, sdl: &str, tsdoc: &TypeSystemDocument, sche
         let frag_names: Vec<&str> = frags.iter().map(|f| f.name.name).collect();
         let mfree = nodup(&frag_names) && merge_free(&sv, &frags, &parent, &selrefs, 0);
         if plain { *out.stats.entry("definitions_plain(theorem C01_emit_eq_ref_local_partial applies)").or_insert(0) += 1; }
-        if nodup(&frag_names) && merge_free_relaxed(&sv, &frags, &parent, &selrefs, 0, false) { *out.stats.entry("forecast_not_proved:merge_free_if_repeated_leaf_keys_were_allowed").or_insert(0) += 1; }
+        let mfree_ld = nodup(&frag_names) && merge_free_g(&sv, &frags, &parent, &selrefs, 0, true);
+        if mfree_ld { *out.stats.entry("definitions_merge_free_ld(theorem C01_emit_eq_ref_local_merge_free_ld applies)").or_insert(0) += 1; }
         if nodup(&frag_names) && merge_free_relaxed(&sv, &frags, &parent, &selrefs, 0, true) { *out.stats.entry("forecast_not_proved:merge_free_if_repeated_leaf_keys_and_aliased_typename_were_allowed").or_insert(0) += 1; }
         if mfree { *out.stats.entry("definitions_merge_free(theorem C01_emit_eq_ref_local_merge_free applies)").or_insert(0) += 1; }
         // cost cap: the spec-side predicates cost about 2^(boolean variables) x (size of the emitted type) per candidate
@@ -450,10 +465,10 @@ fn run_doc(out: &mut Out, si: usize, sdl: &str, tsdoc: &TypeSystemDocument, sche
         let over = cost_est > out.budget;
         if over { out.over_budget.push((cost_est, nvars, tbytes)); *out.stats.entry("definitions_over_cost_budget(property not evaluated; correspondence kept unless the document is left out for size)").or_insert(0) += 1; }
         else if cost_est > out.budget / 10 { *out.stats.entry("definitions_within_a_factor_10_of_the_cost_budget(evaluated)").or_insert(0) += 1; }
-        out.terms.push((si, di, format!("{} {{S}} {{D}} {} {} {} {} {} {} {}", if over { "CTie" } else { "CDef" }, idx, tree_term, ts_term, coq_bool(safe), coq_bool(af), coq_bool(plain), coq_bool(mfree))));
+        out.terms.push((si, di, format!("{} {{S}} {{D}} {} {} {} {} {} {} {} {}{}", if over { "CTie" } else { "CDef" }, idx, tree_term, ts_term, coq_bool(safe), coq_bool(af), coq_bool(plain), coq_bool(mfree), coq_bool(mfree_ld), if over { "" } else { " {E}" })));
         let what: &str = if over { "definition over the cost budget (correspondence only)" } else { what };
         let dj = json!({"kind": what, "stream": stream, "definition": idx, "name": name, "schema": sdl, "doc": text, "emitted_type": printed_ty,
-                        "merge_safe": safe, "typename_alias_free": af, "plain": plain, "merge_free": mfree, "classes": classes,
+                        "merge_safe": safe, "typename_alias_free": af, "plain": plain, "merge_free": mfree, "merge_free_ld": mfree_ld, "classes": classes,
                         "cost": {"vars": nvars, "type_bytes": tbytes, "estimate": cost_est}});
         if out.samples.len() < 3 && idx == 0 && out.descr.len() % 7 == 1 { out.samples.push(json!({"doc": text, "emitted_type": dj["emitted_type"]})); }
         out.descr.push(dj);
@@ -461,7 +476,7 @@ fn run_doc(out: &mut Out, si: usize, sdl: &str, tsdoc: &TypeSystemDocument, sche
             // twin case: C02 with the aliased-__typename deviation read into Ref_local; its classes do not
             // contain that class, so any other looseness of the same type is still reported
             let classes2: Vec<&str> = classes.iter().copied().filter(|c| *c != "aliased-__typename-typed-String-or-null").collect();
-            out.terms.push((si, di, format!("CRelaxed {{S}} {{D}} {} {}", idx, ts_term)));
+            out.terms.push((si, di, format!("CRelaxed {{S}} {{D}} {} {} {{E}}", idx, ts_term)));
             out.descr.push(json!({"kind": format!("{what} (C02 modulo aliased __typename)"), "stream": stream, "definition": idx, "name": name, "schema": sdl, "doc": text,
                                   "emitted_type": printed_ty, "merge_safe": safe, "typename_alias_free": af, "classes": classes2}));
             *out.stats.entry("relaxed_twin_cases").or_insert(0) += 1;
@@ -483,6 +498,39 @@ fn run_doc(out: &mut Out, si: usize, sdl: &str, tsdoc: &TypeSystemDocument, sche
         // measured: distinct (schema, document) pairs that contributed at least one evaluated case
         out.distinct.insert(format!("{}\u{0}{}", sdl, text));
     }
+}
+
+/// The schema declaration file as the implementation prints it (SchemaTypePrinter, default options plus the scalar
+/// configuration): C01/C02 read the operation types together with THIS text's `__OperationOutput` namespace.
+fn schema_declaration(tsdoc: &TypeSystemDocument, scalars: &[(String, ScalarTypeConfig)]) -> Option<String> {
+    let mut opts = SchemaTypePrinterOptions::default();
+    for (k, v) in scalars { opts.scalar_types.insert(k.clone(), v.clone()); }
+    catch(AssertUnwindSafe(|| { let mut w = Rec::new(); SchemaTypePrinter::new(opts, &mut w).print_document(tsdoc).ok().map(|_| w.text()) })).ok().flatten()
+}
+/// Every custom scalar X is meant to have the operation-output type `Scalar_X` (C01/Spec.v atom_of). Three ways to say so:
+/// a scalarTypes entry; a scalarTypes entry AND a (different) @nitrogql_ts_type directive (the entry takes precedence);
+/// only a directive. Returns the SDL with the directives added and the configuration.
+fn configure_scalars(rng: &mut Rng, s: &verif_harness::gen::Schema, sdl: &str, stats: &mut BTreeMap<&'static str, usize>) -> (String, Vec<(String, ScalarTypeConfig)>) {
+    let mut sdl = sdl.to_string();
+    let mut cfg = vec![];
+    let mut any_dir = false;
+    for t in &s.types {
+        if !matches!(t.kind, Kind::Scalar) { continue; }
+        let want = format!("Scalar_{}", t.name);
+        let dir = |out: &str| format!(" @nitrogql_ts_type(resolverInput: \"string\", resolverOutput: \"string\", operationInput: \"string\", operationOutput: \"{out}\")");
+        let line = format!("scalar {}\n", t.name);
+        match rng.below(3) {
+            0 => { cfg.push((t.name.clone(), ScalarTypeConfig::Single(want))); *stats.entry("scalars_configured_by_entry").or_insert(0) += 1; }
+            1 => {
+                cfg.push((t.name.clone(), ScalarTypeConfig::Separate(SeparateScalarTypeConfig { resolver_input: "number".into(), resolver_output: "number".into(), operation_input: "number".into(), operation_output: want })));
+                sdl = sdl.replacen(&line, &format!("scalar {}{}\n", t.name, dir("string")), 1); any_dir = true;
+                *stats.entry("scalars_configured_by_entry_and_different_directive").or_insert(0) += 1;
+            }
+            _ => { sdl = sdl.replacen(&line, &format!("scalar {}{}\n", t.name, dir(&want)), 1); any_dir = true; *stats.entry("scalars_configured_by_directive_only").or_insert(0) += 1; }
+        }
+    }
+    if any_dir { sdl = format!("directive @nitrogql_ts_type(resolverInput: String!, resolverOutput: String!, operationInput: String!, operationOutput: String!) on SCALAR\n{sdl}"); }
+    (sdl, cfg)
 }
 
 /// hand-written corpus: the witnesses of the property texts and of the refuted lemmas, run first
@@ -507,13 +555,13 @@ fn main() {
     let mut rng = Rng::new(args.seed);
     let thorough = args.tier == "thorough";
     let c02 = args.extra.windows(2).any(|w| w[0] == "--mode" && w[1] == "c02");
-    let mut out = Out { schemas: vec![], docs: vec![], terms: vec![], descr: vec![], distinct: HashSet::new(), stats: BTreeMap::new(), direct: vec![], samples: vec![], c02, budget: 2_000_000, over_budget: vec![] };
+    let mut out = Out { schemas: vec![], schema_texts: vec![], docs: vec![], terms: vec![], descr: vec![], distinct: HashSet::new(), stats: BTreeMap::new(), direct: vec![], samples: vec![], c02, budget: 2_000_000, over_budget: vec![] };
 
     for (sdl, text) in corpus() {
         let tsdoc = load_schema(sdl).expect("corpus schema loads");
         assert!(check_schema(&tsdoc).is_empty(), "corpus schema is valid");
         let term = ast_coq::tsdoc(&tsdoc);
-        let si = match out.schemas.iter().position(|t| t == &term) { Some(i) => i, None => { out.schemas.push(term); out.schemas.len() - 1 } };
+        let si = match out.schemas.iter().position(|t| t == &term) { Some(i) => i, None => { out.schemas.push(term); out.schema_texts.push(schema_declaration(&tsdoc, &[])); out.schemas.len() - 1 } };
         let ts = to_type_system(&tsdoc);
         run_doc(&mut out, si, sdl, &tsdoc, &ts, text, "corpus");
     }
@@ -566,10 +614,13 @@ fn main() {
     let (n_schemas, n_docs) = if thorough { (300, 10) } else { (36, 5) };
     for _ in 0..n_schemas {
         let s = gen_schema(&mut rng, &SchemaCfg { descriptions: false, custom_directives: true });
-        let sdl = s.render();
+        let (sdl, scalar_cfg) = configure_scalars(&mut rng, &s, &s.render(), &mut out.stats);
         let tsdoc = match load_schema(&sdl) { Ok(d) => d, Err(_) => { *out.stats.entry("schemas_rejected").or_insert(0) += 1; continue; } };
         if !check_schema(&tsdoc).is_empty() { *out.stats.entry("schemas_rejected").or_insert(0) += 1; continue; }
         out.schemas.push(ast_coq::tsdoc(&tsdoc));
+        let decl = schema_declaration(&tsdoc, &scalar_cfg);
+        if decl.is_none() { *out.stats.entry("schemas_without_declaration(printer error)").or_insert(0) += 1; }
+        out.schema_texts.push(decl);
         let si = out.schemas.len() - 1;
         let ts = to_type_system(&tsdoc);
         for k in 0..n_docs {
@@ -594,11 +645,18 @@ fn main() {
         let _ = writeln!(v, "From V Require Import Base.Util Gql.Ast Writer.Wop Ts.TsType C01.Model C01.Spec C01.Corr.");
         let us: BTreeSet<usize> = chunk.iter().map(|t| t.0).collect();
         let ud: BTreeSet<usize> = chunk.iter().map(|t| t.1).collect();
-        for si in &us { let _ = writeln!(v, "Definition sch_{} : tsdoc := {}.", si, out.schemas[*si]); }
+        for si in &us {
+            let _ = writeln!(v, "Definition sch_{} : tsdoc := {}.", si, out.schemas[*si]);
+            // the implementation's schema declaration text, read ONCE per schema
+            match &out.schema_texts[*si] {
+                Some(t) => { let _ = writeln!(v, "Definition decls_{} := Eval vm_compute in (out_decls sch_{} {}).", si, si, coq_str(t)); }
+                None => { let _ = writeln!(v, "Definition decls_{} : option (list (str * str * tstype)) := None.", si); }
+            }
+        }
         for di in &ud { let _ = writeln!(v, "Definition doc_{} : opdoc := {}.", di, out.docs[*di]); }
         let _ = writeln!(v, "Definition cases : list case := [");
         for (i, (si, di, t)) in chunk.iter().enumerate() {
-            let _ = writeln!(v, "  {}{}", t.replace("{S}", &format!("sch_{}", si)).replace("{D}", &format!("doc_{}", di)), if i + 1 < chunk.len() { ";" } else { "" });
+            let _ = writeln!(v, "  {}{}", t.replace("{S}", &format!("sch_{}", si)).replace("{D}", &format!("doc_{}", di)).replace("{E}", &format!("decls_{}", si)), if i + 1 < chunk.len() { ";" } else { "" });
         }
         let _ = writeln!(v, "].");
         let _ = writeln!(v, "Definition corr_fail := Eval vm_compute in (failing agree cases).");
